@@ -217,6 +217,8 @@ impl DhtNetworkManager {
 /// every listed node carries a DHT key, that key has been recorded, and no two listed nodes share one
 pub open spec fn listed_once(v: Seq<DHTNode>, seen: Set<Key>) -> bool {
     &&& forall|i: int| 0 <= i < v.len() ==> (#[trigger] v[i]).cached_dht_key.is_some() && seen.contains(v[i].cached_dht_key.unwrap().0)
+    // a key is recorded only for a node that is listed: nothing is filtered out as a "duplicate" of a peer that was skipped
+    &&& forall|k: Key| #[trigger] seen.contains(k) ==> exists|i: int| 0 <= i < v.len() && (#[trigger] v[i]).cached_dht_key == Some(DhtKey(k))
     &&& forall|i: int, j: int| 0 <= i < j < v.len() ==> (#[trigger] v[i]).cached_dht_key.unwrap().0 != (#[trigger] v[j]).cached_dht_key.unwrap().0
 }
 pub open spec fn keys_distinct(v: Seq<DHTNode>) -> bool {
@@ -233,5 +235,9 @@ pub proof fn lemma_listed_push(v: Seq<DHTNode>, seen: Set<Key>, n: DHTNode, k: K
     }
     assert forall|i: int| 0 <= i < w.len() implies (#[trigger] w[i]).cached_dht_key.is_some() && seen.insert(k).contains(w[i].cached_dht_key.unwrap().0) by {
         if i < v.len() { assert(w[i] == v[i]); }
+    }
+    assert forall|q: Key| #[trigger] seen.insert(k).contains(q) implies exists|i: int| 0 <= i < w.len() && (#[trigger] w[i]).cached_dht_key == Some(DhtKey(q)) by {
+        if q == k { assert(w[v.len() as int] == n); assert(n.cached_dht_key.unwrap() == DhtKey(k)); }
+        else { let i = choose|i: int| 0 <= i < v.len() && (#[trigger] v[i]).cached_dht_key == Some(DhtKey(q)); assert(w[i] == v[i]); }
     }
 }
